@@ -17,6 +17,17 @@ fn fval(f: f64) -> Value {
     }
 }
 
+/// an error returned by a helper is rendered (Display, Debug) inside the guarded call, like a caller would
+fn seen<T, E: std::fmt::Display + std::fmt::Debug>(r: Result<T, E>) -> Option<T> {
+    match r {
+        Ok(v) => Some(v),
+        Err(e) => {
+            let _ = format!("{} {:?}", e, e);
+            None
+        }
+    }
+}
+
 fn call(name: &str, args: &[Value]) -> Result<Option<Value>, String> {
     let refs: Vec<&Value> = args.iter().collect();
     let a = |i: usize| -> &Value { &args[i] };
@@ -36,15 +47,15 @@ fn call(name: &str, args: &[Value]) -> Result<Option<Value>, String> {
         "abstract_lte" => Some(Value::Bool(js_op::abstract_lte(a(0), a(1)))),
         "abstract_gt" => Some(Value::Bool(js_op::abstract_gt(a(0), a(1)))),
         "abstract_gte" => Some(Value::Bool(js_op::abstract_gte(a(0), a(1)))),
-        "abstract_max" => js_op::abstract_max(&refs).ok().map(fval),
-        "abstract_min" => js_op::abstract_min(&refs).ok().map(fval),
+        "abstract_max" => seen(js_op::abstract_max(&refs)).map(fval),
+        "abstract_min" => seen(js_op::abstract_min(&refs)).map(fval),
         "abstract_plus" => Some(js_op::abstract_plus(a(0), a(1))),
-        "parse_float_add" => js_op::parse_float_add(&refs).ok().map(fval),
-        "parse_float_mul" => js_op::parse_float_mul(&refs).ok().map(fval),
-        "abstract_minus" => js_op::abstract_minus(a(0), a(1)).ok().map(fval),
-        "abstract_div" => js_op::abstract_div(a(0), a(1)).ok().map(fval),
-        "abstract_mod" => js_op::abstract_mod(a(0), a(1)).ok().map(fval),
-        "to_negative" => js_op::to_negative(a(0)).ok().map(fval),
+        "parse_float_add" => seen(js_op::parse_float_add(&refs)).map(fval),
+        "parse_float_mul" => seen(js_op::parse_float_mul(&refs)).map(fval),
+        "abstract_minus" => seen(js_op::abstract_minus(a(0), a(1))).map(fval),
+        "abstract_div" => seen(js_op::abstract_div(a(0), a(1))).map(fval),
+        "abstract_mod" => seen(js_op::abstract_mod(a(0), a(1))).map(fval),
+        "to_negative" => seen(js_op::to_negative(a(0))).map(fval),
         _ => return Err(format!("unknown helper {}", name)),
     })
 }
